@@ -236,6 +236,29 @@ CHECKS["C20"] = (
     "DESIGN.md 6 (C20)",
 )
 
+# Extensions made after the seeded-change waves (DESIGN II.4/II.5); appended to the level text.
+ADDENDA = {
+    "C01": " Also: endianness switched on the loaded object and back (history), and an overflow table for bit-fields (6 storage types x 3 width splits x every position x 5 values that do not fit).",
+    "C02": " Also: endianness switched on the loaded object and back (history); bit pairs split by a zero-size member; blocks without struct-packed members.",
+    "C03": " Also: bit pairs split by a zero-size member, blocks without struct-packed members incl. zero-length arrays, parse at stream offset 16.",
+    "C04": " Also: inline-declared structs/unions, unions whose largest member is not a multiple of their alignment, enums/flags over 24/48-bit integers.",
+    "C05": " Also: the forms T, T[k], T[] and structure members x[n] / x[EOF] of every scalar codec (both readers) and UTF-16 text incl. surrogate pairs decode element-wise like the scalar.",
+    "C06": " Also: dynamic member lengths 0..3 in the dynamic contexts, void / zero-length array between bit-fields, endianness switched after loading and back.",
+    "C07": " Also: constant size expressions that are zero or negative, counts taken from members of an anonymous struct, and [EOF] inputs with a partial trailing element (only whole, genuine elements may be returned).",
+    "C08": " Also: lazily parsed pointer targets (6 target types x 3 pointer widths x every cut inside the target): EOFError, stream position and following records unchanged.",
+    "C09": " Also: recorded _sizes independent of the offset, 11 top-level unions x 14 input kinds / call forms, terminated arrays of every length 0..69 and around 2^7..2^16.",
+    "C11": " Also: structs inside a union nested in a union, two assignments through one held nested reference, two anonymous structs, anonymous inside anonymous, a non-representable float.",
+    "C12": " Also: every array form yields the scalar parse's object (==, hash, name), several declarations with identical expression texts in one load, enum bit-fields behind a dynamic member of an aligned struct.",
+    "C13": " Also: array/pointer alias re-declarations, unknown references in 15 declarator forms (resolve error, no binding, proper definition loads afterwards), load-keyword histories.",
+    "C14": " Also: zero-length array member, all-None / one-positional construction, a size expression that fails at run time, the type description (field order) invariant.",
+    "C15": " Also: a harness resolving two different type names (sizeof / alias) at parse time.",
+    "C16": " Also: handles from repeated dereference are the same structure; zero-run stream content.",
+    "C17": " Also: union / union-holding-struct / array-of-struct / 2-D / char-bit-field kinds, default = parse of zero bytes, constructed = parse of own dump, in-place assignment below field level on default and partially constructed instances.",
+    "C18": " Also: classes created with their first field, one batch interrupted by an exception per history, anonymous members, default-instance independence and the T(bytes) call form in the observation.",
+    "C19": " Also: the class+data dumpstruct form on inputs that do not re-serialise to themselves.",
+    "C20": " Also: definition sets loaded through the legacy parser, generate_file_stub on modules with one or two cstruct objects, anonymous flags, memberless enums, inline structs named like a global type, multi-word alias targets.",
+}
+
 NOT_APPLICABLE = {}
 
 
@@ -254,7 +277,7 @@ def main():
                 "evidence_file": f"/verif/evidence/{pid}.json",
                 "replay_cmd_template": f"./check {pid} --replay {{path}}",
                 "engine": "mcx",
-                "level_claimed": {"category": cat, "text": text, "design_ref": ref},
+                "level_claimed": {"category": cat, "text": text + ADDENDA.get(pid, ""), "design_ref": ref + (", II.5" if pid in ADDENDA else "")},
                 "level_note": BASE_NOTE,
                 "technique": tech,
             }
